@@ -153,6 +153,73 @@ def check_distribution(dist, u_full, n_real, occ_in_real, trunc=1e-9):
     return problems
 
 
+SRC_MAX_PHOTONS = 4
+
+
+def check_source_statistics(stats, occ, src):
+    """Post-condition of Source._build_statistics: a normalised, non-negative distribution over
+    label partitions equal to the generative reference (labels themselves are irrelevant)."""
+    from . import srcref
+    problems = []
+    got: dict = {}
+    for st, p in stats.items():
+        if not (p >= 0):
+            problems.append(f"negative: p({st}) = {p}")
+        if len(st) != len(occ):
+            problems.append(f"length: input {st} has {len(st)} modes, target has {len(occ)}")
+        k = srcref.annotated_to_key(st)
+        got[k] = got.get(k, 0.0) + p
+    tot = sum(got.values())
+    if abs(tot - 1) > 1e-9:
+        problems.append(f"total: input statistics sum to {tot:.12f}")
+    thr = src.probability_threshold
+    ref = srcref.input_statistics(occ, src.brightness, src.purity, src.indistinguishability, 0.0)
+    if thr:
+        # entries within float noise of the threshold may legitimately fall either side
+        sure = {k: p for k, p in ref.items() if p >= thr * (1 + 1e-9)}
+        maybe = {k: p for k, p in ref.items() if thr * (1 - 1e-9) <= p < thr * (1 + 1e-9)}
+        kept = dict(sure)
+        kept.update({k: p for k, p in maybe.items() if k in got})
+        t = sum(kept.values())
+        ref = {k: p / t for k, p in kept.items()} if t else {}
+    for k in set(ref) | set(got):
+        if abs(ref.get(k, 0.0) - got.get(k, 0.0)) > 1e-9:
+            problems.append(f"value: partition {list(k)} has probability {got.get(k, 0.0):.12f}, "
+                            f"reference {ref.get(k, 0.0):.12f}")
+            break
+    return problems
+
+
+def check_source_distribution(dist, u_full, n_real, occ, src):
+    from . import srcref
+    problems = []
+    stats = srcref.input_statistics(occ, src.brightness, src.purity, src.indistinguishability, 0.0)
+    thr = src.probability_threshold
+    if thr:
+        if any(thr * (1 - 1e-9) <= p < thr * (1 + 1e-9) for p in stats.values()):
+            STATS["source_threshold_tie_skipped"] += 1
+            return problems
+        kept = {k: p for k, p in stats.items() if p >= thr}
+        t = sum(kept.values())
+        stats = {k: p / t for k, p in kept.items()}
+    ref = srcref.output_distribution(u_full, n_real, stats)
+    n_max = max((sum(sum(g) for g in k) for k in stats), default=0)
+    allow = 1e-9 * boson.n_fock(u_full.shape[0], max(n_max, 1)) * max(1, len(occ)) + 1e-8
+    got = {}
+    for s, p in dist.items():
+        got[tuple(s)] = got.get(tuple(s), 0.0) + p
+        if not (p >= 0):
+            problems.append(f"negative: p({list(s)}) = {p}")
+    tot = sum(got.values())
+    if not (1 - allow <= tot <= 1 + 1e-8):
+        problems.append(f"total: probabilities sum to {tot:.12f}")
+    for k in set(ref) | set(got):
+        if abs(ref.get(k, 0.0) - got.get(k, 0.0)) > allow:
+            problems.append(f"value: p({list(k)}) = {got.get(k, 0.0):.12f}, mixture reference {ref.get(k, 0.0):.12f}")
+            break
+    return problems
+
+
 def install():
     global _installed, lw
     if _installed:
@@ -242,22 +309,56 @@ def install():
             src = self.source
             ideal = (src.brightness == 1 and src.purity == 1 and src.indistinguishability == 1
                      and not src.probability_threshold)
-            if ideal and getattr(self, "_lwverif_seen", None) is not res:
+            if getattr(self, "_lwverif_seen", None) is not res:
                 object.__setattr__(self, "_lwverif_seen", res)
                 c = self.circuit
                 occ = insert_heralds(self.input_state.s, c.heralds["input"])
-                if sum(occ) <= 6 and c.U_full.shape[0] <= 14:
-                    problems = check_distribution(res, c.U_full, c.n_modes, occ)
+                u = c.U_full
+                if ideal and sum(occ) <= 6 and u.shape[0] <= 14:
+                    problems = check_distribution(res, u, c.n_modes, occ)
                     STATS["sampler_dist_postconditions"] += 1
                     for p in problems:
                         report("C04", f"Sampler.probability_distribution ({self.backend.backend}): {p}",
                                monitor="Sampler.probability_distribution post-condition",
                                mechanism="sampler_distribution:" + p.split(":")[0],
                                witness={"input": occ, "backend": self.backend.backend,
-                                        "n_modes": c.n_modes, "loss_modes": c.U_full.shape[0] - c.n_modes})
+                                        "n_modes": c.n_modes, "loss_modes": u.shape[0] - c.n_modes})
+                elif not ideal and sum(occ) <= SRC_MAX_PHOTONS and u.shape[0] <= 10:
+                    problems = check_source_distribution(res, u, c.n_modes, occ, src)
+                    STATS["sampler_source_postconditions"] += 1
+                    for p in problems:
+                        report("C06", f"Sampler.probability_distribution with {src} ({self.backend.backend}): {p}",
+                               monitor="Sampler.probability_distribution post-condition (imperfect source)",
+                               mechanism="source_distribution:" + p.split(":")[0],
+                               witness={"input": occ, "backend": self.backend.backend, "n_modes": c.n_modes,
+                                        "loss_modes": u.shape[0] - c.n_modes, "source": str(src)})
+                elif not ideal:
+                    STATS["sampler_source_skipped_size"] += 1
         except Exception as e:  # noqa: BLE001
             STATS["sampler_dist_monitor_error:" + type(e).__name__] += 1
         return res
 
     emu.Sampler.probability_distribution = property(pd_get, doc=prop.__doc__)
+
+    # ---------------- Source._build_statistics (C06)
+    from lightworks.emulator.components import Source
+    orig_bs = Source._build_statistics
+
+    @functools.wraps(orig_bs)
+    def _build_statistics(self, state):
+        res = orig_bs(self, state)
+        try:
+            occ = list(state)
+            if sum(occ) <= SRC_MAX_PHOTONS + 1:
+                STATS["source_stats_postconditions"] += 1
+                for p in check_source_statistics(res, occ, self):
+                    report("C06", f"{self}._build_statistics({occ}): {p}",
+                           monitor="Source._build_statistics post-condition",
+                           mechanism="source_statistics:" + p.split(":")[0],
+                           witness={"input": occ, "source": str(self)})
+        except Exception as e:  # noqa: BLE001
+            STATS["source_stats_monitor_error:" + type(e).__name__] += 1
+        return res
+
+    Source._build_statistics = _build_statistics
     _installed = True
